@@ -37,6 +37,8 @@ func run(c *vlib.Ctx) error {
 		return runFaults(c)
 	case "C03":
 		return runUnknown(c)
+	case "C18":
+		return runExec(c)
 	}
 	return fmt.Errorf("driver transition does not know property %q", c.Prop)
 }
@@ -50,7 +52,7 @@ func replay(c *vlib.Ctx) error {
 	switch c.Prop {
 	case "C16":
 		return replayLinks(c, begin)
-	case "C08", "C09", "C03":
+	case "C08", "C09", "C03", "C18":
 		return replayTransition(c, begin)
 	}
 	return fmt.Errorf("driver transition does not know property %q", c.Prop)
